@@ -240,7 +240,7 @@ theorem raiseAnchor_miss (b : Buf) (o a : Nat) (h : b.anchor = some a) (hne : b.
   rw [if_neg]; omega
 
 theorem raiseAnchor_last (b : Buf) (o a : Nat) (h : b.anchor = some a) (he : b.base + a = o)
-    (hn : b.nanchor - 1 = 0) : raiseAnchor b o = { b with nanchor := 0, anchor := none } := by
+    (hn : b.nanchor - 1 = 0) : raiseAnchor b o = { b with nanchor := 0, anchor := none, stab := false } := by
   unfold raiseAnchor; simp only [h]
   rw [if_pos (by omega), if_pos hn]
 
